@@ -67,9 +67,10 @@ def _handle(req: dict) -> dict:
         return {"cids": [x.content_id for x in RW.walk(o)]}
     if req["op"] == "roundtrip":
         fmt, opts = req["fmt"], req.get("opts")
+        # a reader process starts with an empty source table
+        Source.clear_registry()
         if opts == "idx":
-            # the documented protocol: sources are shipped separately and loaded into an empty table
-            Source.clear_registry()
+            # the documented protocol: sources are shipped separately and loaded into the empty table
             Source.load_serialized_sources(req["sources"])
         data = RW.payload_from_json(req["payload"], fmt)
         try:
